@@ -215,7 +215,9 @@ ssize_t pwrite(int fd, const void* buf, size_t count, off_t off)
     if (o.kind == O_FAIL) {
         ev("pwrite(%s,%ld,%zu)=fail", fdname(fd, nm), (long)off, count);
         g_op_pwrite_failed = 1;
-        errno = EIO;
+        // the kind of failure varies with the call index (disk error, disk full, and the "try again" kinds a caller may be tempted to retry)
+        static const int kinds[] = { EIO, ENOSPC, EAGAIN, EINTR };
+        errno = kinds[(g_call - 1) & 3];
         return -1;
     }
     if (o.kind == O_ZERO || (o.kind == O_SHORT && o.k == 0)) want = 0;
